@@ -62,14 +62,38 @@ def run(R):
               "here-documents among the derivations within the deviation budget and seeded random ones; distinct_nontrivial = "
               "distinct commands with at least two here-documents or a quoted / <<- delimiter")
     R.assumptions = ["<<- bodies are kept verbatim (only the delimiter line may be tab-indented; stripping is left to the "
-                     "interpreter) -- pinned by the repository's tests", "schedules of the lexer/parser pair are covered by C06"]
+                     "interpreter) -- pinned by the repository's tests", "both extreme schedules (lexer-eager / parser-eager) are forced for a sample of the focus programs; all schedules of the protocol are C06's"]
     cases = focus(R)
     gen = shellgen.bfs(R, 3) if R.tier == "thorough" else shellgen.bfs(R, 2)
     sim = shellgen.simulate(R, 300 if R.tier == "quick" else 5000)
     extra = [c for c in shellgen.dedup(gen + sim) if c["hd"]]
     allc = shellgen.dedup(cases + extra)
     recs = check(R, allc, "h")
-    R.evaluations = len(recs)
+    # each run under both extreme schedules of the lexer/parser pair (gated scheduler of the harness, see C06)
+    import random
+    rnd = random.Random(R.seed)
+    sample = rnd.sample(cases, min(len(cases), 1000 if R.tier == "quick" else len(cases)))
+    gated = []
+    for i, c in enumerate(sample):
+        for pol in ("lexer", "parser"):
+            gated.append(dict(id="g%d.%s" % (i, pol), kind="parse", src=c["src"], policy=pol))
+    gobs, _ = R.drive("sched", gated, shards=vlib.NCPU, timeout=3000)
+    if len(gobs) != len(gated):
+        raise vlib.MachineryError("sched driver returned %d of %d" % (len(gobs), len(gated)))
+    grecs = []
+    for o in gobs:
+        c = sample[int(o["id"][1:].split(".")[0])]
+        grecs.append(dict(id=o["id"], src=c["src"], sk=c["sk"], hd=c["hd"], policy=o["policy"],
+                          obs=dict(err=o["err"], panic=o["panic"], projerr=o["projerr"], sk=o["sk"], shapes=o["shapes"], hd=o["hd"])))
+    gbad = validate(R, grecs, "hg")
+    for k in gbad:
+        r = grecs[k]
+        ex = dict(src=r["src"], schedule=r["policy"] + "-eager", err=r["obs"]["err"], expected_hd=r["hd"], observed_hd=r["obs"]["hd"],
+                  same_skeleton=(r["obs"]["sk"] == r["sk"]))
+        R.violation("here-document attachment differs under a forced schedule: %s" % json.dumps(ex, ensure_ascii=False)[:1600],
+                    dict(kind="heredoc", case=dict(src=r["src"], sk=r["sk"], hd=r["hd"])), coords=dict(src=r["src"]))
+    R.notes["gated_runs"] = len(grecs)
+    R.evaluations = len(recs) + len(grecs)
     R.traces = len(recs)
     R.nontrivial = set(r["src"] for r in recs if len(r["hd"]) >= 2 or "<<-" in r["src"] or "'E'" in r["src"] or "\\E" in r["src"])
     for r in recs[len(cases) // 2: len(cases) // 2 + 2] + recs[-1:]:
